@@ -11,8 +11,19 @@ BW = "bigtools/src/bbi/bigbedwrite.rs"
 
 
 def recv_is_param0(fn):
+    """the receiver is the function's first parameter, or a local that aliases it (`let w = &mut *file;`, a helper's parameter after inlining)"""
     p0 = fn.params[0][0]
-    return lambda r: r == p0
+
+    def ok(r, node=None):
+        if r == p0:
+            return True
+        if node is not None and isinstance(strip(node), Node) and strip(node).k == "path":
+            try:
+                return origin(fn, node) == "p0"
+            except Exception:
+                return False
+        return False
+    return ok
 
 
 def split_structure(parts):
@@ -54,7 +65,7 @@ def seek_arg(m):
 # ---------------------------------------------------------------- write_info
 def _write_info_regions(ctx):
     """write_info as a list of regions: (seek kind, seek arg node, seek part, [emits...], loop group or None), in source order"""
-    fn = ctx.ast.fn(W, "write_info")
+    fn = ctx.ast.fn(W, "write_info", inline=True)
     parts = emissions(fn.body, recv_is_param0(fn))
     segs = split_structure(parts)
     if [s_[0] for s_ in segs][-1:] == ["flush"]:
@@ -233,7 +244,7 @@ def ob_write_info(ctx, res):
 
 
 def ob_blank_headers(ctx, res):
-    fn = ctx.ast.fn(W, "write_blank_headers")
+    fn = ctx.ast.fn(W, "write_blank_headers", inline=True)
     parts = emissions(fn.body, recv_is_param0(fn))
     segs = split_structure(parts)
     if not expect_shape(res, fn, segs, ["seek", "emits"], "write_blank_headers"):
@@ -262,7 +273,7 @@ def ob_blank_headers(ctx, res):
 
 # ---------------------------------------------------------------- chromosome tree
 def ob_chrom_tree_w(ctx, res):
-    fn = ctx.ast.fn(W, "write_chrom_tree")
+    fn = ctx.ast.fn(W, "write_chrom_tree", inline=True)
     parts = emissions(fn.body, recv_is_param0(fn))
     segs = split_structure(parts)
     if not expect_shape(res, fn, segs, ["emits", "loop"], "write_chrom_tree"):
@@ -347,11 +358,15 @@ def ob_chrom_tree_w(ctx, res):
 # ---------------------------------------------------------------- sections
 def _loop_over(fn, group):
     """origin of the iterable of a for-loop group"""
-    return origin(fn, group.node["iter"]) if group.node.k == "for" else "?"
+    if group.node.k == "for":
+        return origin(fn, group.node["iter"])
+    if group.node.k == "closure" and group.node.parent is not None and group.node.parent.k == "mcall":
+        return origin(fn, group.node.parent["recv"])       # `items.iter().try_for_each(|item| ..)`
+    return "?"
 
 
 def ob_wig_section_w(ctx, res):
-    fn = ctx.ast.fn(WW, "encode_section")
+    fn = ctx.ast.fn(WW, "encode_section", inline=True)
     parts = emissions(fn.body)
     segs = split_structure(parts)
     if not expect_shape(res, fn, segs[:2], ["emits", "loop"], "bigwig encode_section"):
@@ -419,21 +434,48 @@ def _section_data_literal(ctx, res, fn, P, chromo, monotone_end_ok):
         res.fail("sectionData/end", lits[0], "SectionData.end (`%s`) not recognised as covering every item" % up(f["end"]))
 
 
+class _Disp(dict):
+    """`if c {A} else {B}` or `match c { true => A, false => B }` presented alike: ["cond"], ["then"], ["else"], .parent, .order"""
+    def get(self, k, d=None):
+        return dict.get(self, k, d)
+
+
+def _bool_dispatch(n):
+    if n.k == "if" and strip(n["cond"]).k != "let_expr":
+        d = _Disp(cond=n["cond"], then=n["then"], **{"else": n.get("else")})
+    elif n.k == "match" and len(n["arms"]) == 2 and sorted(up(a["pat"]) for a in n["arms"]) == ["false", "true"]:
+        arms = {up(a["pat"]): a["body"] for a in n["arms"]}
+        def blk(b):
+            b = strip(b)
+            if b.k == "block":
+                return b
+            from ..astq import _mknode
+            w = _mknode({"k": "block", "stmts": [_mknode({"k": "expr_stmt", "e": b, "semi": False})]})     # `false => (bytes, 0)` as a block with a tail
+            w.parent, w.order, w.fn, w.file = b.parent, b.order, b.fn, b.file
+            return w
+        d = _Disp(cond=n["scrut"], then=blk(arms["true"]), **{"else": blk(arms["false"])})
+    else:
+        return None
+    d.node = n
+    return d
+
+
 def _compress_tail(ctx, res, fn):
     """C01-F1: (compressed truncated to actual size, len of the UNCOMPRESSED buffer) | (bytes, 0)."""
     from ..astq import walk_no_nested_fn
-    ifs = [n for n in walk_no_nested_fn(fn.body) if n.k == "if" and origin(fn, n["cond"]) == "p0"]
+    ifs = [d for d in (_bool_dispatch(n) for n in walk_no_nested_fn(fn.body)) if d is not None and origin(fn, d["cond"]) == "p0"]
     if len(ifs) != 1:
-        res.fail("compress/if", fn, "expected one `if compress` selecting the output buffer, found %d" % len(ifs))
+        res.undecided("compress/if", fn, "expected one `if compress` (or `match compress`) selecting the output buffer, found %d" % len(ifs))
         return
-    node = ifs[0]
+    disp = ifs[0]
+    node = disp.node
 
     def tail(b):
         st = b["stmts"]
         if st and st[-1].k == "expr_stmt" and not st[-1]["semi"]:
             return strip(st[-1]["e"])
         return None
-    t_then, t_else = tail(node["then"]), tail(node["else"]) if node.get("else") is not None else None
+    t_then, t_else = tail(disp["then"]), tail(disp["else"]) if disp.get("else") is not None else None
     if not (t_then is not None and t_then.k == "tuple" and len(t_then["elems"]) == 2 and t_else is not None and t_else.k == "tuple" and len(t_else["elems"]) == 2):
         res.fail("compress/tuple", node, "both arms must yield (bytes, uncompressed_size)")
         return
@@ -450,9 +492,9 @@ def _compress_tail(ctx, res, fn):
     if size_src != raw_buf + ".len()":
         res.fail("compress/buf-size", t_then, "compressed arm reports `%s` as uncompressed size; must be `%s.len()` (the input of zlib_compress)" % (size_src, raw_buf))
         return
-    zc = list(calls(node["then"], method="zlib_compress"))
-    zb = list(calls(node["then"], method="zlib_compress_bound"))
-    rs = list(calls(node["then"], method=("resize", "truncate")))
+    zc = list(calls(disp["then"], method="zlib_compress"))
+    zb = list(calls(disp["then"], method="zlib_compress_bound"))
+    rs = list(calls(disp["then"], method=("resize", "truncate")))
     if len(zc) != 1 or len(zb) != 1:
         res.fail("compress/callee", node, "compression must be Compressor::zlib_compress with a zlib_compress_bound-sized buffer (standard zlib stream)")
         return
@@ -491,7 +533,7 @@ def _compress_tail(ctx, res, fn):
 
 
 def ob_bed_section_w(ctx, res):
-    fn = ctx.ast.fn(BW, "encode_section")
+    fn = ctx.ast.fn(BW, "encode_section", inline=True)
     parts = emissions(fn.body)
     segs = split_structure(parts)
     if not expect_shape(res, fn, segs[:1], ["loop"], "bigbed encode_section"):
@@ -517,7 +559,7 @@ def ob_bed_section_w(ctx, res):
 
 
 def ob_zoom_section_w(ctx, res):
-    fn = ctx.ast.fn(W, "encode_zoom_section")
+    fn = ctx.ast.fn(W, "encode_zoom_section", inline=True)
     parts = emissions(fn.body)
     segs = split_structure(parts)
     if not expect_shape(res, fn, segs[:1], ["loop"], "encode_zoom_section"):
@@ -557,16 +599,65 @@ def ob_rtree_consts(ctx, res):
             res.ok(loc(c), "%s = %d" % (name, v))
 
 
-def ob_cir_header_w(ctx, res):
-    fn = ctx.ast.fn(W, "write_rtreeindex")
+def _tail_expr(b):
+    b = strip(b)
+    while b.k == "block":
+        st = b["stmts"]
+        if not st or st[-1].k != "expr_stmt" or st[-1].get("semi"):
+            return None
+        b = strip(st[-1]["e"])
+    return b
+
+
+def cir_header_parts(fn):
+    """the 48-byte index header of write_rtreeindex as (first tell, 3 leading emits, bounds arms, 3 trailing emits) where a bounds arm is
+    (label, guard node or None, [4 value nodes], site).  Two spellings are recognised: the four bounds written inside each arm of a match over
+    the root's children, or computed as a 4-tuple per arm (possibly in a helper) and written once."""
     parts = emissions(fn.body, recv_is_param0(fn))
     segs = split_structure(parts)
-    # tell, emits(3), alt, emits(3), tell, loop?  (write_tree is a call, not an emission here)
-    kinds = [s[0] for s in segs]
-    if kinds[:5] != ["tell", "emits", "alt", "emits", "tell"]:
-        res.fail("cirHeader/shape", fn, "emission structure %s, expected tell, 3 fields, bounds alternative, 3 fields, tell" % kinds)
+    kinds = [s_[0] for s_ in segs]
+    if kinds[:5] == ["tell", "emits", "alt", "emits", "tell"] and len(segs[1][1]) == 3 and len(segs[3][1]) == 3:
+        alt = segs[2][1]
+        arms = []
+        for br, arm in zip(alt.parts, alt.node["arms"] if alt.node.k == "match" else [None] * len(alt.parts)):
+            ems = flat_emits(br.parts)
+            arms.append((br.label, arm.get("guard") if arm is not None else None, [e.arg for e in ems], br.node, ems))
+        return segs[0][1].node, segs[1][1], arms, segs[3][1], None
+    if kinds[:3] == ["tell", "emits", "tell"] and len(segs[1][1]) == 10:
+        ems = segs[1][1]
+        mid = ems[3:7]
+        from ..astq import binding_before
+        sites = []
+        for i, e in enumerate(mid):
+            a = strip(e.arg) if e.arg is not None else None
+            bnd = binding_before(fn, a["path"], e.node) if a is not None and a.k == "path" else None
+            if bnd is None or bnd[0] != "let" or bnd[-1] != (i,):
+                return None
+            sites.append(bnd[1])
+        if any(x is not sites[0] for x in sites) or sites[0].get("init") is None:
+            return None
+        m = _tail_expr(sites[0]["init"])
+        if m is None or m.k != "match":
+            return None
+        arms = []
+        for arm in m["arms"]:
+            t = _tail_expr(arm["body"])
+            if t is None or t.k != "tuple" or len(t["elems"]) != 4:
+                return None
+            arms.append((up(arm["pat"]), arm.get("guard"), list(t["elems"]), arm, None))
+        return segs[0][1].node, ems[:3], arms, ems[7:], mid
+    return None
+
+
+def ob_cir_header_w(ctx, res):
+    fn = ctx.ast.fn(W, "write_rtreeindex", inline=True, keep=("rtree_block_size",))
+    hp = cir_header_parts(fn)
+    if hp is None:
+        parts = emissions(fn.body, recv_is_param0(fn))
+        res.undecided("cirHeader/shape", fn, "emission structure %s is neither `tell, 3 fields, bounds per arm, 3 fields, tell` nor `tell, 10 fields, tell` with the bounds "
+                                             "taken from a per-arm 4-tuple: the header's provenance is not decided" % [s_[0] for s_ in split_structure(parts)])
         return
-    a, alt, b = segs[1][1], segs[2][1], segs[3][1]
+    first_tell, a, arms, b, mid = hp
     H = F.CIR_TREE_HEADER
     opt_p = [i for i, (nm, ty) in enumerate(fn.params) if "BBIWriteOptions" in ty]
     cnt_p = [i for i, (nm, ty) in enumerate(fn.params) if ty == "u64"]
@@ -576,8 +667,6 @@ def ob_cir_header_w(ctx, res):
     O = "p%d" % opt_p[0]
     ok = check_emit_seq(res, fn, a, H[:3], {"magic": {"const:CIR_TREE_MAGIC"}, "blockSize": {O + ".block_size", "rtree_block_size(%s)" % O},
                                              "itemCount": {"p%d" % cnt_p[0]}}, "cirHeader")
-    # endFileOffset <- the tell() taken first
-    first_tell = segs[0][1].node
     okb = check_emit_seq(res, fn, b, H[7:], {"endFileOffset": lambda o: o.endswith(".tell()"),
                                              "itemsPerSlot": {O + ".items_per_slot"}}, "cirHeader")
     if okb:
@@ -590,19 +679,22 @@ def ob_cir_header_w(ctx, res):
             res.fail("cirHeader/endFileOffset", b[0].node, "endFileOffset must be the position taken before the index header is written")
             okb = False
     okalt = True
-    if len(alt.parts) not in (2, 3):
-        res.fail("cirHeader/bounds-arms", alt.node, "expected leaf-root / inner-root (and optionally empty-index) arms")
+    if len(arms) not in (2, 3):
+        res.fail("cirHeader/bounds-arms", fn, "expected leaf-root / inner-root (and optionally empty-index) arms")
         okalt = False
-    for br in alt.parts:
-        ems = flat_emits(br.parts)
-        if not check_emit_seq(res, fn, ems, H[3:7], {}, "cirHeader.bounds[%s]" % br.label):
+    if mid is not None:
+        if not check_emit_seq(res, fn, mid, H[3:7], {}, "cirHeader.bounds"):
             okalt = False
+    else:
+        for label, guard, vals, site, ems in arms:
+            if not check_emit_seq(res, fn, ems, H[3:7], {}, "cirHeader.bounds[%s]" % label):
+                okalt = False
     if ok and okb and okalt:
         res.ok(fn, "48-byte cirTree header: magic, blockSize<-options, itemCount<-section count, 4 bounds, endFileOffset<-tell() first, itemsPerSlot<-options, 0")
 
 
 def ob_write_tree_w(ctx, res):
-    fn = ctx.ast.fn(W, "write_tree")
+    fn = ctx.ast.fn(W, "write_tree", inline=True, keep=("rtree_block_size",))
     # final match on nodes: two arms
     from ..astq import walk_no_nested_fn
     tail = fn.body["stmts"][-1]
@@ -676,12 +768,12 @@ def _sum_product_consts(ctx, e):
 
 # ---------------------------------------------------------------- write_pre
 def ob_write_pre_bw(ctx, res):
-    fn = ctx.ast.fn(WW, "write_pre")
+    fn = ctx.ast.fn(WW, "write_pre", inline=True)
     _write_pre(ctx, res, fn, bigbed=False)
 
 
 def ob_write_pre_bb(ctx, res):
-    fn = ctx.ast.fn(BW, "write_pre")
+    fn = ctx.ast.fn(BW, "write_pre", inline=True)
     _write_pre(ctx, res, fn, bigbed=True)
 
 
